@@ -36,7 +36,8 @@ COMPONENTS = {
     "stub_or_harness": ["SimNet (virtual-time FIFO network)", "client/server node scripts", "SimRandom"],
 }
 PROBES = ["update_at_counter_9", "update_at_counter_0", "back_to_back_updates", "update_with_packets_in_flight",
-          "three_wraparounds_between_updates", "reconnect", "sequence_sent_as_short", "two_pings_outstanding"]
+          "three_wraparounds_between_updates", "reconnect", "sequence_sent_as_short", "two_pings_outstanding",
+          "request_from_another_thread"]
 FAULT_KINDS = ["latency_jitter", "start_update_mid_burst", "reconnect", "start_unreadable_during_request"]
 SHRINK_KEYS = ["script", "local"]
 
@@ -67,8 +68,10 @@ def generate(streams, tier):
     local = []
     for _ in range(rng.randrange(0, 60)):
         r = rng.random()
-        if r < 0.6:
+        if r < 0.5:
             local.append(["next"])
+        elif r < 0.6:
+            local.append(["next_in_thread"])    # same sequencer, another caller thread, strictly one after the other
         elif r < 0.85:
             local.append(["set", rng.choice([0, 1, 9, 240, 252, 253, 1756, rng.randrange(0, 70000),
                                              -1, -8, -13, rng.randrange(-300, 0)])])   # from_init_values(0, 5) is -8
@@ -303,8 +306,20 @@ def run_local(plan, s, res, tr):
             seq.set_sequence_start(ProbeStart(op[1]))
             start = op[1]
             tr.ev("local", "set", op[1])
-        elif op[0] == "next":
-            got = seq.next_sequence()
+        elif op[0] in ("next", "next_in_thread"):
+            if op[0] == "next_in_thread":
+                import threading
+                box = []
+                th = threading.Thread(target=lambda: box.append(seq.next_sequence()))
+                th.start()
+                th.join()
+                res.count("probe.request_from_another_thread")
+                if not box:
+                    s.fail("exception", "local", f"local history step {i}: next_sequence() raised in a second caller thread")
+                    return
+                got = box[0]
+            else:
+                got = seq.next_sequence()
             want = start + n % 10
             tr.ev("local", "next", got)
             if got != want:
